@@ -83,6 +83,8 @@ class Buffer:
         self.events = []
         self.threshold = 0.6
         self.stored_times = []
+        # Observations accepted for ingest whose data is still arriving
+        self._ingest_admitted = []
 
     def run(self):
         """
@@ -185,11 +187,25 @@ class Buffer:
                 f"{observation.name}, Observation: {size} vs Hot Buffer: {self.hot[b].total_capacity:.1f}"
             )
 
-        elif self.hot[b].current_capacity - size < 0 \
+        # Space that admitted observations have yet to fill is spoken for
+        promised = sum(
+            o.ingest_data_rate * o.duration - o.total_data_size
+            for o in self._ingest_admitted
+        )
+        if self.hot[b].current_capacity - promised - size < 0 \
                 or not self.cold[b].has_capacity_for(size):
             return False
 
         return True
+
+    def admit_observation(self, observation):
+        """
+        Record that the observation has been accepted for ingest, so that
+        the space its data will fill is not promised to another observation.
+
+        To be called by the Scheduler once the observation is going ahead.
+        """
+        self._ingest_admitted.append(observation)
 
     def ingest_data_dump(self, data):
         pass
@@ -450,6 +466,8 @@ class Buffer:
                 self.waiting_observation_list.append(observation)
                 self.hot[b].observations["stored"].append(observation)
                 self.stored_times.append(self.env.now)
+                if observation in self._ingest_admitted:
+                    self._ingest_admitted.remove(observation)
                 break
 
             yield self.env.timeout(TIMESTEP)
